@@ -1123,7 +1123,12 @@ func genEngine(r *rng, n int, tier string, emit func(J)) {
 				case "create":
 					q = create(g, ph, "alice", "bob", 20)
 				case "revert":
-					q = J{"kind": "revert", "target": 1, "force": false}
+					// the same key for reverts of the same and of other transactions (a replay answers the recorded one)
+					t := 1
+					if g.p(50) {
+						t = g.n(len(funding))
+					}
+					q = J{"kind": "revert", "target": t, "force": g.p(30)}
 				case "setmeta":
 					q = J{"kind": "setmeta", "acct": "alice", "key": "k1", "val": fmt.Sprintf("v%d", i)}
 				default:
